@@ -27,15 +27,9 @@ import itertools, struct, ast, inspect, textwrap
 import bitstring.bits, bitstring.bitarray_, bitstring.bitstore
 
 FUNCTIONAL = True
-NOT_YET_PROVED = [
-    "find_lsb0_mirror / rfind_lsb0_mirror at full strength (every bytealigned): false on the current tree for bytealigned=True "
-    "(known finding lsb0-aligned-find); proved as find_lsb0_mirror_partial / rfind_lsb0_mirror_partial for bytealigned=False, "
-    "deviation witnessed by find_lsb0_alignedFind_witness / find_lsb0_alignedFind_not_aligned",
-    "x[a:b:c] = <int> (setSliceInt: the int is written at the width of the slice) has no theorem of its own: it is "
-    "setSliceBits / set(range) after a mode-independent width computation; it is covered by the correspondence only",
-]
-LEVEL_TEXT = ("Lean theorems about a function-by-function transcription of the lsb0 code paths (offset_slice_indices_lsb0, the *_lsb0 BitStore methods, _find_lsb0/_rfind_lsb0, the reverse chunk scan of _findall_lsb0 with the chunk increment as a parameter >= 1, _append_lsb0, the swapped rol/ror entries, _replace's list reversal, pack's token reversal, the two method tables): for every content, every length and every position argument the lsb0 result equals reverse(msb0 operation on the reversed operands) - get/del/set slices for every start/stop/step (negative steps, empty and inverted ranges, step 0), index get/set/del, invert, set (incl. ranges), all/any, find/rfind without bytealigned, findall and replace for every window, count and alignment flag and every data length (findall_lsb0_chunks_eq holds for every chunk increment), startswith, endswith, cut, insert, overwrite, append, prepend, ranged reverse, byteswap, rol/ror (range mirrored, direction kept), reads/unpack/pack order; shifts and whole-value interpretations do not depend on the mode; set_lsb0(v) gives the same bindings after any toggle history. One deviant region (find/rfind with bytealigned=True) is transcribed as it is, excluded by the decidable region alignedFind and witnessed by a decided example. Correspondence: every operation on lengths 0..12 exhaustive over index arguments, 8 000-40 000-bit data with patterns planted around multiples of 8192, toggle histories, msb0 behaviour re-checked after switching the option off on every case.")
-LEVEL_NOTE = ("Trusted: Lean kernel (+propext, Classical.choice, Quot.sound); bitarray's slicing/search modelled as Python list operations (checked against str semantics on every case by the oracle); the hand transcription is tied to the code only by the correspondence run. Known finding on the current tree: lsb0 find/rfind with bytealigned=True (known_findings.d/C12.json).")
+NOT_YET_PROVED = []
+LEVEL_TEXT = ("Lean theorems about a function-by-function transcription of the lsb0 code paths (offset_slice_indices_lsb0, the *_lsb0 BitStore methods, _find_lsb0/_rfind_lsb0, the reverse chunk scan of _findall_lsb0 with the chunk increment as a parameter >= 1, _append_lsb0, the swapped rol/ror entries, _replace's list reversal, pack's token reversal, the two method tables): for every content, every length and every position argument the lsb0 result equals reverse(msb0 operation on the reversed operands) - get/del/set slices for every start/stop/step (negative steps, empty and inverted ranges, step 0), index get/set/del, invert, set (incl. ranges), all/any, find/rfind/findall and replace for every window, count and alignment flag and every data length (findall_lsb0_chunks_eq holds for every chunk increment), startswith, endswith, cut, insert, overwrite, append, prepend, ranged reverse, byteswap, rol/ror (range mirrored, direction kept), reads/unpack/pack order; shifts and whole-value interpretations do not depend on the mode; set_lsb0(v) gives the same bindings after any toggle history. x[a:b:c] = <int> is reduced to the bitstring case by a mode-independent operand. No deviant region is left. Correspondence: every operation on lengths 0..12 exhaustive over index arguments, 8 000-40 000-bit data with patterns planted around multiples of 8192, toggle histories, msb0 behaviour re-checked after switching the option off on every case.")
+LEVEL_NOTE = ("Trusted: Lean kernel (+propext, Classical.choice, Quot.sound); bitarray's slicing/search modelled as Python list operations (checked against str semantics on every case by the oracle); the hand transcription is tied to the code only by the correspondence run. The six defects found while building the check are repaired in /repo (known_findings.d/C12.json, status fixed; their witnesses run on every check).")
 TECHNIQUE = "Lean 4 proof (index-mirror arithmetic, search mirror, chunked-scan loop invariant, method-table closure) + exhaustive small-domain and chunk-boundary correspondence"
 
 R = lambda s: s[::-1]
